@@ -392,7 +392,7 @@ func InstrStr(in ssa.Instruction) string {
 		return valStr(x.Map, 0) + "[" + valStr(x.Key, 0) + "] = " + valStr(x.Value, 0)
 	case *ssa.Return:
 		s := "return"
-		for i, r := range x.Results {
+		for i, r := range RetVals(x) {
 			if i > 0 {
 				s += ","
 			}
